@@ -255,6 +255,20 @@ Theorem C17_failed_save_retry : forall P, wf_params P = true -> forall d i0 Ac e
 Proof. exact failed_save_retry. Qed.
 Print Assumptions C17_failed_save_retry.
 
+(* Process death inside the entry loop of a Save, then restart: killed before the slot record of entry j is written (with
+   or without any part of its payload - a payload without slot record belongs to no row), the directory is the state of
+   save_fail (FEntry j _); Init answers with everything below the first new index followed by the first j entries of the
+   batch, minus what Init compacts; hard state and snapshot are the old ones; the invariant holds again. *)
+Theorem C17_crash_in_loop_then_reopen : forall P, wf_params P = true -> forall d i0 Ac e0 r h s j rot,
+  dinvz P i0 d Ac -> valid_batch P e0 r (log_of d) -> (j < length (e0 :: r))%nat ->
+  let d1 := snd (save_fail VZeroSlots P (e0 :: r) h s (FEntry j rot) d) in
+  settled d1 ->
+  let d2 := reopen P d1 in
+  abs d2 = mkalog (drop_below (disk_first d2) (below_idx (e_index e0) (log_of d) ++ firstn j (e0 :: r))) (d_meta d)
+  /\ exists i2 Ac2, dinvz P i2 d2 Ac2.
+Proof. exact crash_in_loop_then_reopen. Qed.
+Print Assumptions C17_crash_in_loop_then_reopen.
+
 (* hypotheses satisfiable, every fault kind reported at least once: three files of 4 slots, a conflicting Save into
    the first one with hard state and snapshot *)
 Definition fault_ops : list sop := [ Save (seg 1 10 1 0 5 7) (Some (mkhs 1 1 9)) None ].
